@@ -973,9 +973,39 @@ def run_sequence(spec, length: int = 0, extra_ops: bool = False, allow_regcycle:
             before, orph = after, orph2
             if real.approx or real.future_in_ports():
                 records[-1][0] = ['approx'] + records[-1][0]
+        _republish_probe(real, ops, records, verdicts)
         return ops, records, verdicts
     finally:
         real.close()
+
+
+def _republish_probe(real: Real, ops, records, verdicts) -> None:
+    """The modelling assumption behind `publishTo` (Lean: C11_collapse_reachable / C11_republish_idempotent) on the
+    real objects: at the end of a sequence inside the modelled domain, `Future._collapse()` - i.e. the public
+    `Publishable.republish` of every (registered publisher, held subscription) pair - raises nothing and leaves the
+    graph exactly as it is.  Only placeholders that have at least one such pair are probed."""
+    if verdicts or not ops or any(r[0] and r[0][0] == 'approx' for r in records):
+        return
+    fut = real.env['atomic'].Future
+    todo = [(k, n) for k, n in enumerate(real.nodes) if isinstance(n, fut)
+            and any(int(i) < len(n._output) and len(n._output[int(i)]._subscriptions) > 0  # pylint: disable=protected-access
+                    for i in n._input.values())]  # pylint: disable=protected-access
+    if not todo:
+        return
+    base = real.dump()
+    for k, n in todo:
+        try:
+            n._collapse()  # pylint: disable=protected-access
+        except Exception as err:  # pylint: disable=broad-except
+            verdicts.append((len(ops) - 1, 'republish-not-idempotent',
+                             f'after {ops}: Future._collapse() of node {k} (re-publishing pairs that were published '
+                             f'before) raised {type(err).__name__}: {err}'))
+            return
+    now = real.dump()
+    if now != base:
+        verdicts.append((len(ops) - 1, 'republish-not-idempotent',
+                         f'after {ops}: Future._collapse() of nodes {[k for k, _ in todo]} (re-publishing pairs that '
+                         f'were published before) changed the graph: {base} -> {now}'))
 
 
 def _staged(ops, res, after, sig, what):
@@ -1265,7 +1295,10 @@ class C11(fw.Check):
         'the Publisher-collision check of Future.register (same proxy object registered twice) is not reachable '
         'through node[i] (a fresh proxy per call) and is not modelled',
         'Future._collapse re-publishes every (registered publisher, held subscription) pair; the model forwards the '
-        'new subscription only (re-publishing an already published pair is a no-op in every reachable state)',
+        'new subscription only (re-publishing an already published pair is a no-op in every reachable state: proved '
+        'of the model - C11_republish_idempotent, C11_collapse_reachable, up to the fuel bound - and probed on the real '
+        'objects by _collapse() at the end of every sequence inside the modelled domain, signature '
+        'republish-not-idempotent)',
         'the model follows the code with fixes/C11-atomic-topology-errors.diff applied',
         'Segment.copy: the model makes every check before it creates a fork (the code forks and subscribes lazily; what a '
         'refused copy leaves behind in the worker groups is finding C11-F4 and is not part of the compared state), a '
